@@ -12,8 +12,11 @@ def Value.beq : Value → Value → Bool
   | .string a, .string b => a == b
   | .constString a, .constString b => a == b
   | .vector a, .vector b => a == b
-  | .listener a, .listener b => a == b
-  | .constArrayRef a, .constArrayRef b => a == b
+  | .link c s a, .link c' s' b => c == c' && s == s' && a == b
+  | .holderRef c a, .holderRef c' b => c == c' && a == b
+  | .pointer p vs, .pointer p' vs' => p == p' && vs == vs'
+  | .array h rc tl th tli es, .array h' rc' tl' th' tli' es' =>
+    h == h' && rc == rc' && tl == tl' && th == th' && tli == tli' && Value.beqE es es'
   | .constArray h rc es, .constArray h' rc' es' => h == h' && rc == rc' && Value.beqE es es'
   | _, _ => false
 def Value.beqE : List (Lbl × Value) → List (Lbl × Value) → Bool
@@ -26,17 +29,13 @@ mutual
 theorem Value.eq_of_beq : (a b : Value) → Value.beq a b = true → a = b := by
   intro a b h
   cases a <;> cases b <;> simp [Value.beq] at h
-  · rfl
-  · rw [h]
-  · rw [h]
-  · rw [h]
-  · rw [h]
-  · rw [h]
-  · rw [h]
-  · rw [h]
-  · rename_i h1 rc1 es1 h2 rc2 es2
-    rw [h.1.1, h.1.2, Value.eqE_of_beqE es1 es2 h.2]
-  · rw [h]
+  all_goals first
+    | rfl
+    | (rw [h])
+    | (obtain ⟨⟨rfl, rfl⟩, rfl⟩ := h; rfl)
+    | (obtain ⟨rfl, rfl⟩ := h; rfl)
+    | (obtain ⟨⟨rfl, rfl⟩, h3⟩ := h; rw [Value.eqE_of_beqE _ _ h3])
+    | (obtain ⟨⟨⟨⟨⟨rfl, rfl⟩, rfl⟩, rfl⟩, rfl⟩, h3⟩ := h; rw [Value.eqE_of_beqE _ _ h3])
 theorem Value.eqE_of_beqE : (a b : List (Lbl × Value)) → Value.beqE a b = true → a = b
   | [], [], _ => rfl
   | (l, v) :: es, (l', v') :: es', h => by
